@@ -13186,3 +13186,27 @@ impl PeerConnection {
         v
     }
 }
+
+// --- verification hooks (C15: RTX receive path and receiver NACK bookkeeping) ---
+#[cfg(rustrtc_verif)]
+impl RtpReceiver {
+    /// Installs the RTX association the SDP code would install (apt map, RTX SSRC) and the
+    /// latched primary SSRC, without a transport.
+    pub fn verif_set_rtx_state(&self, apt: Vec<(u8, u8)>, rtx_ssrc: Option<u32>, primary_ssrc: u32) {
+        *self.rtx_apt.lock() = apt.into_iter().collect();
+        *self.rtx_ssrc.lock() = rtx_ssrc;
+        *self.ssrc.lock() = primary_ssrc;
+    }
+    /// Runs the real `maybe_unwrap_rtx`.
+    pub fn verif_maybe_unwrap_rtx(&self, packet: RtpPacket) -> Option<RtpPacket> {
+        self.maybe_unwrap_rtx(packet)
+    }
+}
+
+#[cfg(rustrtc_verif)]
+impl DefaultRtpReceiverNackHandler {
+    /// Size of the pending-NACK set.
+    pub fn verif_pending_len(&self) -> usize {
+        self.pending_nacks.lock().len()
+    }
+}
